@@ -215,9 +215,14 @@ static void Tree_Del(var self) {
 
 static void Tree_Assign(var self, var obj) {
   struct Tree* m = self;
+
+  /* ask the source first: if it cannot answer (NULL) nothing is cleared */
+  var ktype = implements_method(obj, Get, key_type) ? key_type(obj) : Ref;
+  var vtype = implements_method(obj, Get, val_type) ? val_type(obj) : Ref;
+
   Tree_Clear(self);
-  m->ktype = implements_method(obj, Get, key_type) ? key_type(obj) : Ref;
-  m->vtype = implements_method(obj, Get, val_type) ? val_type(obj) : Ref;
+  m->ktype = ktype;
+  m->vtype = vtype;
   m->ksize = Tree_Size_Round(size(m->ktype));
   m->vsize = Tree_Size_Round(size(m->vtype));
   foreach (key in obj) {
